@@ -1,6 +1,6 @@
 (* C02: under WF, lookups and clone queries are exact. *)
 From Coq Require Import List ZArith Bool Arith Lia Permutation.
-From NT Require Import Sx Rose ListFacts RoseFacts Surgery SurgeryFacts Machine WF MachineFacts PreserveSteps Queries.
+From NT Require Import Sx Rose ListFacts RoseFacts Surgery SurgeryFacts Machine WF MachineFacts PreserveSteps PreserveOps Lookup.
 Import ListNotations.
 
 (* the nodes of the forest carrying data_id d *)
@@ -49,43 +49,38 @@ Section UnderWF.
   Qed.
 
   (* find_all(data_id=d) = exactly the nodes of the forest with that data_id *)
-  Theorem find_all_exact d : Permutation (find_all_did t d) (nodes_with f d).
+  Theorem find_all_exact d : Permutation (lk_find_all_did t d) (nodes_with f d).
   Proof.
     apply NoDup_Permutation.
     - apply idx_group_nodup.
     - unfold nodes_with. apply NoDup_map_filter. apply H.
-    - intros n. unfold find_all_did. rewrite (idx_get_keys t n d H), nodes_with_in. reflexivity.
+    - intros n. unfold lk_find_all_did. rewrite (idx_get_keys t n d H), nodes_with_in. reflexivity.
   Qed.
 
-  Theorem find_all_live n d : In n (find_all_did t d) <-> In n (ids f) /\ did_of n f = Some d.
+  Theorem find_all_live n d : In n (lk_find_all_did t d) <-> In n (ids f) /\ did_of n f = Some d.
   Proof.
-    unfold find_all_did. rewrite (idx_get_keys t n d H), (did_of_keys f n d (wf_nodup t H)). split; [|tauto].
+    unfold lk_find_all_did. rewrite (idx_get_keys t n d H), (did_of_keys f n d (wf_nodup t H)). split; [|tauto].
     intros X. split; [|assumption]. fold f in X. rewrite <- (keys_fst f). change n with (fst (n, d)). now apply in_map.
   Qed.
 
-  Theorem find_first_exact d : match find_first_did t d with
+  Theorem find_first_exact d : match lk_find_first_did t d with
                                | Some n => In n (ids f) /\ did_of n f = Some d
                                | None => forall n, In n (ids f) -> did_of n f <> Some d
                                end.
   Proof.
-    unfold find_first_did. destruct (idx_get d (idx t)) as [|n l] eqn:E; cbn [hd_error].
-    - intros n Hn X. assert (Y : In n (find_all_did t d)) by (apply find_all_live; now split).
-      unfold find_all_did in Y. now rewrite E in Y.
-    - apply find_all_live. unfold find_all_did. rewrite E. now left.
+    unfold lk_find_first_did. destruct (idx_get d (idx t)) as [|n l] eqn:E; cbn [hd_error].
+    - intros n Hn X. assert (Y : In n (lk_find_all_did t d)) by (apply find_all_live; now split).
+      unfold lk_find_all_did in Y. now rewrite E in Y.
+    - apply find_all_live. unfold lk_find_all_did. rewrite E. now left.
   Qed.
 
-  Theorem find_node_id_exact n : find_node_id t n = Some n <-> In n (ids f).
+  Theorem find_nodeid_exact n : lk_find_nodeid t n = Some n <-> In n (ids f).
   Proof.
-    unfold find_node_id. destruct (existsb (Nat.eqb n) (reg t)) eqn:E.
+    unfold lk_find_nodeid. destruct (existsb (Nat.eqb n) (reg t)) eqn:E.
     - split; [intros _|reflexivity]. apply existsb_exists in E. destruct E as (m & Hm & E). apply Nat.eqb_eq in E. subst m.
       apply (Permutation_in _ (wf_reg t H) Hm).
     - split; [discriminate|]. intros X. apply (Permutation_in _ (Permutation_sym (wf_reg t H))) in X.
       assert (Y : existsb (Nat.eqb n) (reg t) = true) by (apply existsb_exists; exists n; split; [assumption|apply Nat.eqb_refl]). congruence.
-  Qed.
-
-  Theorem contains_node_exact n : contains_node t n = true <-> In n (ids f).
-  Proof.
-    rewrite <- find_node_id_exact. unfold find_node_id, contains_node. destruct (existsb (Nat.eqb n) (reg t)); split; congruence.
   Qed.
 
   Lemma idx_key_inhabited d : In d (map fst (idx t)) <-> exists n, In (n, d) (keys f).
@@ -98,49 +93,95 @@ Section UnderWF.
     - intros (n & X). apply (Permutation_in _ (Permutation_sym (wf_idx t H))) in X. now apply idx_flat_key in X.
   Qed.
 
-  Theorem contains_did_exact d : contains_did t d = true <-> exists n, In n (ids f) /\ did_of n f = Some d.
+  Theorem has_did_exact d : idx_has d (idx t) = true <-> exists n, In n (ids f) /\ did_of n f = Some d.
   Proof.
-    unfold contains_did. rewrite idx_has_In, idx_key_inhabited. split; intros (n & X); exists n.
-    - apply find_all_live. unfold find_all_did. now apply (idx_get_keys t n d H).
+    rewrite idx_has_In, idx_key_inhabited. split; intros (n & X); exists n.
+    - apply find_all_live. unfold lk_find_all_did. now apply (idx_get_keys t n d H).
     - apply (idx_get_keys t n d H). apply find_all_live in X. exact X.
+  Qed.
+
+  (* key in tree (the key's data_id is e) *)
+  Theorem contains_key_exact e : lk_contains_key t (Some e) = Some true <-> exists n, In n (ids f) /\ did_of n f = Some e.
+  Proof.
+    unfold lk_contains_key. cbn [option_map]. assert (X := find_first_exact e).
+    destruct (lk_find_first_did t e) as [n|]; split.
+    - intros _. now exists n.
+    - reflexivity.
+    - discriminate.
+    - intros (n & Hn & E). exfalso. now apply (X n Hn).
+  Qed.
+
+  Theorem contains_data_exact dat e : calc_id (calc t) dat = Some e ->
+    (lk_contains_data t dat = Some true <-> exists n, In n (ids f) /\ did_of n f = Some e).
+  Proof.
+    intros C. rewrite <- contains_key_exact. unfold lk_contains_data, lk_find_first_data, lk_contains_key. rewrite C. reflexivity.
+  Qed.
+
+  Theorem find_all_data_exact dat e : calc_id (calc t) dat = Some e ->
+    exists l, lk_find_all_data t dat = Some l /\ Permutation l (nodes_with f e).
+  Proof. intros C. unfold lk_find_all_data. rewrite C. eexists. split; [reflexivity|apply find_all_exact]. Qed.
+
+  (* tree[key]: a result is a live node; for a present int/str key it is the unique node with that data_id *)
+  Theorem getitem_sound k n : lk_getitem t k = Ok [n] -> In n (ids f).
+  Proof.
+    unfold lk_getitem. destruct (lk_candidates t k) as [[|m [|m2 l]]|] eqn:E; try discriminate. intros X. injection X as ->.
+    assert (A : forall d, In n (lk_find_all_did t d) -> In n (ids f)) by (intros d Y; now apply find_all_live in Y).
+    assert (B : forall o, option_map (lk_find_all_did t) o = Some [n] -> In n (ids f)).
+    { intros [d|]; [|discriminate]. cbn. intros Y. injection Y as Y. apply (A d). rewrite Y. now left. }
+    destruct k as [m fb|e fb|dd a]; cbn [lk_candidates] in E.
+    - destruct (lk_find_nodeid t m) as [r|] eqn:F; [|now apply (B fb)].
+      injection E as <-. unfold lk_find_nodeid in F. destruct (existsb (Nat.eqb m) (reg t)) eqn:X; [|discriminate].
+      injection F as <-. apply find_nodeid_exact. unfold lk_find_nodeid. now rewrite X.
+    - destruct (idx_has e (idx t)); [|now apply (B fb)]. injection E as E. apply (A e). rewrite E. now left.
+    - unfold lk_find_all_data in E. destruct a as [e|]; [destruct (idx_has e (idx t))|]; try (now apply (B (calc_id (calc t) dd))).
+      injection E as E. apply (A e). rewrite E. now left.
+  Qed.
+
+  Theorem getitem_did_exact e fb n : idx_has e (idx t) = true ->
+    (lk_getitem t (LDid e fb) = Ok [n] <-> nodes_with f e = [n]).
+  Proof.
+    intros Hh. unfold lk_getitem. cbn [lk_candidates]. rewrite Hh. assert (P := find_all_exact e). split.
+    - destruct (lk_find_all_did t e) as [|m [|m2 l]]; try discriminate. intros X. injection X as ->.
+      now apply Permutation_length_1_inv in P.
+    - intros E. rewrite E in P. apply Permutation_sym, Permutation_length_1_inv in P. now rewrite P.
   Qed.
 
   (* clones of a node: every other node with the same data_id, nothing else *)
   Theorem get_clones_exact n add_self c :
-    In c (get_clones t n add_self) <->
+    In c (lk_get_clones t n add_self) <->
     In n (ids f) /\ In c (ids f) /\ did_of c f = did_of n f /\ (add_self = true \/ c <> n).
   Proof.
-    unfold get_clones. fold f. destruct (did_of n f) as [d|] eqn:E.
-    - rewrite filter_In. fold (find_all_did t d). rewrite find_all_live, orb_true_iff, negb_true_iff, Nat.eqb_neq. fold f.
+    unfold lk_get_clones. fold f. destruct (did_of n f) as [d|] eqn:E.
+    - rewrite filter_In. fold (lk_find_all_did t d). rewrite find_all_live, orb_true_iff, negb_true_iff, Nat.eqb_neq. fold f.
       assert (Hn : In n (ids f)). { apply (did_of_keys f n d (wf_nodup t H)) in E. rewrite <- (keys_fst f). change n with (fst (n, d)). now apply in_map. }
       tauto.
     - split; [intros []|]. intros (Hn & _). destruct (get_node_complete n f Hn) as (s & Es). unfold did_of in E. now rewrite Es in E.
   Qed.
 
-  Theorem get_clones_nodup n add_self : NoDup (get_clones t n add_self).
-  Proof. unfold get_clones. destruct (did_of n (forest_of t)); [apply NoDup_filter, idx_group_nodup|constructor]. Qed.
+  Theorem get_clones_nodup n add_self : NoDup (lk_get_clones t n add_self).
+  Proof. unfold lk_get_clones. destruct (did_of n (forest_of t)); [apply NoDup_filter, idx_group_nodup|constructor]. Qed.
 
   Theorem is_clone_exact n : In n (ids f) ->
-    (is_clone t n = true <-> exists c, c <> n /\ In c (ids f) /\ did_of c f = did_of n f).
+    (lk_is_clone t n = true <-> exists c, c <> n /\ In c (ids f) /\ did_of c f = did_of n f).
   Proof.
-    intros Hn. unfold is_clone. fold f. destruct (get_node_complete n f Hn) as (s & Es).
+    intros Hn. unfold lk_is_clone. fold f. destruct (get_node_complete n f Hn) as (s & Es).
     assert (E : did_of n f = Some (rdid s)) by (unfold did_of; now rewrite Es). rewrite E.
     assert (Hin : In n (idx_get (rdid s) (idx t))) by (apply find_all_live; now split).
     assert (ND := idx_group_nodup (rdid s)). rewrite Nat.ltb_lt. split.
     - intros L. destruct (idx_get (rdid s) (idx t)) as [|a [|b l]] eqn:G; cbn in L; try lia.
       assert (X : a <> n \/ b <> n). { inversion ND as [|x l' N1 N2]; subst. destruct (Nat.eq_dec a n); [right|now left]. intros ->. apply N1. subst. now left. }
-      destruct X as [X|X]; [exists a|exists b]; (split; [assumption|]); apply find_all_live; unfold find_all_did; rewrite G; cbn; tauto.
+      destruct X as [X|X]; [exists a|exists b]; (split; [assumption|]); apply find_all_live; unfold lk_find_all_did; rewrite G; cbn; tauto.
     - intros (c & Nc & Hc & Ec). assert (Hcin : In c (idx_get (rdid s) (idx t))) by (apply find_all_live; split; [assumption|congruence]).
       destruct (idx_get (rdid s) (idx t)) as [|a [|b l]]; cbn; try lia; [contradiction|].
       destruct Hin as [<-|[]]. destruct Hcin as [<-|[]]. contradiction.
   Qed.
 
-  Theorem count_exact : count t = length (ids f).
+  Theorem count_exact : lk_count t = length (ids f).
   Proof. apply Permutation_length, H. Qed.
 
-  Theorem count_unique_exact : count_unique t = length (nodup did_eq_dec (map rdid (pre_f f))).
+  Theorem count_unique_exact : lk_count_unique t = length (nodup did_eq_dec (map rdid (pre_f f))).
   Proof.
-    unfold count_unique. rewrite <- (map_length fst). apply Permutation_length. apply NoDup_Permutation.
+    unfold lk_count_unique. rewrite <- (map_length fst). apply Permutation_length. apply NoDup_Permutation.
     - apply H.
     - apply NoDup_nodup.
     - intros d. rewrite nodup_In, idx_key_inhabited, in_map_iff. split.
@@ -148,3 +189,79 @@ Section UnderWF.
       + intros (s & E & Hs). exists (rid s). apply keys_in_iff. now exists s.
   Qed.
 End UnderWF.
+
+Lemma Invariant_get_put w ti t t' : get_tree w ti = Some t -> get_tree (put_tree (bump w 1) ti t') ti = Some t'.
+Proof.
+  unfold get_tree, put_tree, bump. cbn [trees]. intros G. destruct (nth_error_split _ _ G) as (a & b & -> & <-).
+  rewrite upd_nth_split. apply nth_error_app_len.
+Qed.
+
+(* ---- provenance of a new node's data_id ---- *)
+Lemma did_of_new_spec t d explicit :
+  lk_did_of_new t d explicit =
+  match explicit with
+  | Some e => Some e                                   (* the explicit data_id *)
+  | None => match calc t with
+            | None => Some (DInt (d_hash d))           (* hash(data) *)
+            | Some tbl => match find (fun e => Z.eqb (fst e) (d_obj d)) tbl with   (* the tree's callback *)
+                          | Some e => snd e
+                          | None => None
+                          end
+            end
+  end.
+Proof. unfold lk_did_of_new, calc_id. destruct explicit; [reflexivity|]. now destruct (calc t). Qed.
+
+Theorem add_did_provenance w ti p d explicit k b n :
+  WFw w -> fst (op_add w ti p d explicit k b) = Ok [n] ->
+  exists t t' id, get_tree w ti = Some t /\ get_tree (snd (op_add w ti p d explicit k b)) ti = Some t' /\
+                  lk_did_of_new t d explicit = Some id /\ did_of n (forest_of t') = Some id /\ n = next w.
+Proof.
+  intros H. assert (H' := PreserveOps.WFw_op_add w ti p d explicit k b H). revert H'. unfold op_add.
+  destruct (get_tree w ti) as [t|] eqn:Gt; [|discriminate].
+  destruct (parent_path p (forest_of t)) as [pq|] eqn:Gp; [|discriminate].
+  destruct (get_ch pq (forest_of t)) as [ch|] eqn:Gc; [|discriminate].
+  destruct (negb (before_ok (norm_before b) ch)); [discriminate|].
+  fold (lk_did_of_new t d explicit). destruct (lk_did_of_new t d explicit) as [id|] eqn:Ed; [|discriminate].
+  destruct (collides t p id); [discriminate|]. cbn [fst snd]. intros H' E. injection E as <-.
+  set (x := T (next w) (mk_info d id (default_kind t k) []) []) in *.
+  set (t' := set_all t (upd_ch pq (place (norm_before b) x) (forest_of t)) (reg t ++ [next w]) (idx_add id (next w) (idx t))) in *.
+  assert (G' : get_tree (put_tree (bump w 1) ti t') ti = Some t') by (now apply (Invariant_get_put w ti t t')).
+  exists t, t', id. repeat split; auto.
+  assert (Wt' := WFw_tree _ ti t' H' G').
+  apply (did_of_keys _ _ _ (wf_nodup t' Wt')). cbn [forest_of t' set_all].
+  assert (P := rows_insert_perm pq (forest_of t) ch 0 (norm_before b) x Gc).
+  rewrite <- (rows_keys' _ 0). apply (Permutation_in _ (Permutation_sym (Permutation_map r_key P))).
+  rewrite map_app. apply in_or_app. left. cbn. now left.
+Qed.
+
+(* ---- list-level forms ---- *)
+Lemma filter_neq_remove n l : filter (fun c => negb (Nat.eqb c n)) l = remove Nat.eq_dec n l.
+Proof.
+  induction l as [|x l IH]; [reflexivity|]. cbn [filter remove]. destruct (Nat.eq_dec n x) as [->|Ne].
+  - rewrite Nat.eqb_refl. cbn [negb]. exact IH.
+  - replace (Nat.eqb x n) with false by (symmetry; apply Nat.eqb_neq; congruence). cbn [negb]. now rewrite IH.
+Qed.
+
+Theorem get_clones_as_remove t n d : did_of n (forest_of t) = Some d ->
+  lk_get_clones t n false = remove Nat.eq_dec n (lk_find_all_did t d) /\
+  lk_get_clones t n true = lk_find_all_did t d /\
+  lk_is_clone t n = Nat.ltb 1 (length (lk_find_all_did t d)).
+Proof.
+  intros E. unfold lk_get_clones, lk_is_clone, lk_find_all_did. rewrite E. cbn [orb]. refine (conj _ (conj _ eq_refl)).
+  - apply filter_neq_remove.
+  - apply filter_all_true. reflexivity.
+Qed.
+
+(* tree[key] for a present int/str key: the unique node, or the ambiguity error when there are several *)
+Theorem getitem_did_class t e fb : WF t -> idx_has e (idx t) = true ->
+  (exists n, lk_getitem t (LDid e fb) = Ok [n] /\ nodes_with (forest_of t) e = [n]) \/
+  (lk_getitem t (LDid e fb) = Err EAmbiguous /\ 2 <= length (nodes_with (forest_of t) e)).
+Proof.
+  intros H Hh. assert (P := find_all_exact t H e). assert (L := Permutation_length P).
+  unfold lk_getitem. cbn [lk_candidates]. rewrite Hh.
+  destruct (lk_find_all_did t e) as [|m [|m2 l]] eqn:E.
+  - exfalso. apply (has_did_exact t H e) in Hh. destruct Hh as (n & Hn).
+    apply (find_all_live t H n e) in Hn. now rewrite E in Hn.
+  - left. exists m. split; [reflexivity|]. now apply Permutation_length_1_inv in P.
+  - right. split; [reflexivity|]. rewrite <- L. cbn. lia.
+Qed.
